@@ -785,3 +785,32 @@ add("bm-08-merge-replacement-partial-key-copy", ["C03", "C04"], "heavyhitters",
     "                    kl = other_key_lens[row, col]\n                    lhh[row, col, :kl] = other_lhh[row, col, :kl]\n                    key_lens[row, col] = kl", rules=["bm-table"])
 add("bm-09-add-replacement-partial-key-copy", ["C03", "C04"], "heavyhitters",
     "                lhh[row, col, :] = key_array\n", "                lhh[row, col, :key_len] = key_array[:key_len]\n", rules=["bm-table"])
+
+add("fwd-01-linear-add-truncates-key", ["C01", "C05", "C12"], "countmin",
+    "            self.uint_maxval,\n            key,\n            value,\n        )\n\n    def update(", "            self.uint_maxval,\n            key[:16],\n            value,\n        )\n\n    def update(", rules=["value-fwd"])
+add("fwd-02-hh-add-ngram-n-minus-one", ["C12"], "heavyhitters",
+    "            self.uint_maxval,\n            key,\n            ngram,\n        )", "            self.uint_maxval,\n            key,\n            ngram - np.uint64(1),\n        )", rules=["value-fwd"])
+add("E-deleg-01-update-dict-by-index", ["C12"], "hyperloglog",
+    "        for key in keys:\n            self.add(key)\n\n    def add_ngram", "        for k in keys:\n            self.add(k)\n\n    def add_ngram", kind="E")
+
+HELP_OK = "\n\n@njit(uint64(types.Bytes(types.uint8, 1, \"C\"), uint64, uint64))\ndef _bucket(key, row, width):\n    return fasthash64(key, row) % width\n\n\n@njit(\n    uint32(\n        uint32[:, :],\n        uint64[:],\n        uint64,\n        uint64,\n        uint32,\n        types.Bytes(types.uint8, 1, \"C\"),\n    )\n)\ndef _query_linear("
+HELP_BAD = HELP_OK.replace("    return fasthash64(key, row) % width\n", "    if row < 2 or len(key) <= 32:\n        return fasthash64(key, row) % width\n    return fasthash64(key, 1) % width\n")
+QSIG = "\n\n@njit(\n    uint32(\n        uint32[:, :],\n        uint64[:],\n        uint64,\n        uint64,\n        uint32,\n        types.Bytes(types.uint8, 1, \"C\"),\n    )\n)\ndef _query_linear("
+add("E-seedrow-02-column-helper-extracted", ["C14", "C01", "C05"], "countmin", QSIG, HELP_OK, kind="E",
+    also=[("countmin", "    min_count = uint_maxval\n    for row in range(depth):\n        buckets[row] = fasthash64(key, row) % width\n        count = cms[row, buckets[row]]\n        if count < min_count:\n            min_count = count\n    return min_count\n\n\n@njit(\n    types.void(\n        uint32[:, :],",
+           "    min_count = uint_maxval\n    for row in range(depth):\n        buckets[row] = _bucket(key, row, width)\n        count = cms[row, buckets[row]]\n        if count < min_count:\n            min_count = count\n    return min_count\n\n\n@njit(\n    types.void(\n        uint32[:, :],")])
+add("seedrow-06-column-helper-reuses-row1-for-long-keys", ["C14", "C01", "C05"], "countmin", QSIG, HELP_BAD, rules=["seedrow", "qmin"],
+    also=[("countmin", "    min_count = uint_maxval\n    for row in range(depth):\n        buckets[row] = fasthash64(key, row) % width\n        count = cms[row, buckets[row]]\n        if count < min_count:\n            min_count = count\n    return min_count\n\n\n@njit(\n    types.void(\n        uint32[:, :],",
+           "    min_count = uint_maxval\n    for row in range(depth):\n        buckets[row] = _bucket(key, row, width)\n        count = cms[row, buckets[row]]\n        if count < min_count:\n            min_count = count\n    return min_count\n\n\n@njit(\n    types.void(\n        uint32[:, :],")])
+
+add("writer-01-log16-save-appends-zip-comment", ["C20"], "countmin",
+    "            dtype=self.cms[0, 0],\n        )\n\n    @staticmethod\n    def load(filename: Union[str, Path], shared_memory: bool = False):\n        \"\"\"\n        Load a saved CountMinLog16",
+    "            dtype=self.cms[0, 0],\n        )\n        import zipfile\n        with zipfile.ZipFile(str(filename), \"a\") as zf:\n            zf.comment = b\"sketchnu log sketch\"\n\n    @staticmethod\n    def load(filename: Union[str, Path], shared_memory: bool = False):\n        \"\"\"\n        Load a saved CountMinLog16",
+    rules=["writer-api"])
+add("writer-02-hll-save-appends-trailer", ["C20"], "hyperloglog",
+    "            filename, args=np.array([self.p, self.seed], np.uint64), hll=self.registers\n        )",
+    "            filename, args=np.array([self.p, self.seed], np.uint64), hll=self.registers\n        )\n        with open(filename, \"ab\") as fh:\n            fh.write(b\"\\0\" * 16)",
+    rules=["writer-api"])
+add("E-writer-01-hh-save-normalises-path", ["C20", "C10"], "heavyhitters",
+    "        np.savez(\n            filename,\n            args=np.array(\n                [self.width, self.depth, self.max_key_len, self.phi], np.float64",
+    "        filename = Path(filename)\n        np.savez(\n            filename,\n            args=np.array(\n                [self.width, self.depth, self.max_key_len, self.phi], np.float64", kind="E")
